@@ -144,6 +144,10 @@ async def step(w: World, rnd, weights, names, opts):
         dst = [x for x in opts.get("rename_targets", []) if x not in w.boxes]
         if dst:
             await w.op_rename(ss, "INBOX", rnd.choice(dst))
+    elif op == "probe_pairs" and sel:
+        await w.op_probe_pairs(ss)
+    elif op == "search_flag" and sel:
+        await w.op_search_flag(ss, rnd.choice(["SEEN", "UNSEEN", "DELETED", "FLAGGED", "ANSWERED", "DRAFT", "RECENT", "KEYWORD kw1", "UNKEYWORD kw1", "KEYWORD $Forwarded", "UNDELETED"]))
     elif op == "subscribe":
         await w.op_subscribe(ss, rnd.choice(sel_names), on=rnd.random() < 0.7)
     else:
